@@ -101,11 +101,23 @@ func CalculateAmountToClaim(
 		amountToClaim = deposit
 		remainingDepositValue = sdk.NewCoin(deposit.Denom, sdk.NewInt(0))
 	} else {
-		// calculate based on flow rate and remaining deposit
-		timeSinceLast := nowTime.Sub(lastOutflowTime)
-		secondsSinceLast := int64(timeSinceLast.Seconds())
-		numCoins := secondsSinceLast * flowRate
-		amountToClaim = sdk.NewCoin(deposit.Denom, sdk.NewIntFromUint64(uint64(numCoins)))
+		// calculate based on flow rate and remaining deposit.
+		// Whole seconds since the last outflow are computed with integer arithmetic:
+		// time.Duration saturates after ~292 years and Duration.Seconds() goes through
+		// float64, which can round a fraction of a second up to a full second.
+		secondsSinceLast := nowTime.Unix() - lastOutflowTime.Unix()
+		if nowTime.Nanosecond() < lastOutflowTime.Nanosecond() {
+			secondsSinceLast--
+		}
+		if secondsSinceLast < 0 {
+			secondsSinceLast = 0
+		}
+		// multiply as sdk.Int so that seconds * flowRate cannot wrap around int64
+		numCoins := sdk.NewInt(secondsSinceLast).Mul(sdk.NewInt(flowRate))
+		if numCoins.IsNegative() {
+			numCoins = sdk.ZeroInt()
+		}
+		amountToClaim = sdk.NewCoin(deposit.Denom, numCoins)
 		if deposit.Amount.GT(amountToClaim.Amount) {
 			remainingDepositValue = deposit.Sub(amountToClaim)
 		} else {
